@@ -428,16 +428,76 @@ def r5_expand(body, kind, occ, qual_name):
     P and B are copied from the source text."""
     toks = lex(body)
     s = sig(toks)
-    meth = {'map-collect': 'map', 'map-iter': 'map', 'all': 'all', 'any': 'any'}[kind]
+    meth = {'map-collect': 'map', 'map-iter': 'map', 'all': 'all', 'any': 'any', 'fold': 'fold'}[kind]
     hits = []
     for pos in range(len(s) - 3):
-        if toks[s[pos]].text == '.' and toks[s[pos + 1]].kind == 'ident' and toks[s[pos + 1]].text == meth and toks[s[pos + 2]].text == '(' and toks[s[pos + 3]].text == '|':
+        if toks[s[pos]].text == '.' and toks[s[pos + 1]].kind == 'ident' and toks[s[pos + 1]].text == meth and toks[s[pos + 2]].text == '(' and (toks[s[pos + 3]].text == '|' or kind == 'fold'):
             hits.append(pos)
     if len(hits) < occ:
         raise Drift('%s: R5 %s #%d: adapter call not found' % (qual_name, kind, occ))
     pos = hits[occ - 1]
     open_paren = s[pos + 2]
     close_paren = match_close(toks, open_paren)
+    init_text = None
+    if kind == 'fold':
+        # .fold(INIT, |A, P| B): find the closure's opening bar at depth 0 inside the call
+        q0 = pos + 3
+        depth = 0
+        while True:
+            tt = toks[s[q0]]
+            if tt.kind == 'punct' and tt.text in rsitems.OPEN:
+                depth += 1
+            elif tt.kind == 'punct' and tt.text in rsitems.CLOSE:
+                depth -= 1
+            if depth == 0 and tt.kind == 'punct' and tt.text == ',':
+                break
+            q0 += 1
+        init_text = body[toks[s[pos + 3]].start:toks[s[q0]].start].strip()
+        if toks[s[q0 + 1]].text != '|':
+            raise Drift('%s: R5 fold: closure not found' % qual_name)
+        # two closure parameters A, P
+        q = q0 + 2
+        a_start = toks[s[q]].start
+        while toks[s[q]].text != ',':
+            q += 1
+        acc_name = body[a_start:toks[s[q - 1]].end]
+        pos_pat = q + 1
+        q = pos_pat
+        pat_start = toks[s[q]].start
+        while toks[s[q]].text != '|':
+            q += 1
+        pat_end = toks[s[q - 1]].end
+        b_start = toks[s[q + 1]].start
+        last = max(k for k in s if k < close_paren)
+        b_end = toks[last].end
+        pat = body[pat_start:pat_end]
+        cbody = body[b_start:b_end]
+        end = toks[close_paren].end
+        r = pos - 1
+        while r >= 0:
+            t = toks[s[r]]
+            if t.kind == 'punct' and t.text in (')', ']'):
+                depth = 0
+                k = s[r]
+                while k >= 0:
+                    tt = toks[k]
+                    if tt.kind == 'punct' and tt.text in rsitems.CLOSE:
+                        depth += 1
+                    elif tt.kind == 'punct' and tt.text in rsitems.OPEN:
+                        depth -= 1
+                        if depth == 0:
+                            break
+                    k -= 1
+                r = s.index(k) - 1
+                continue
+            if (t.kind == 'ident' and t.text not in CHAIN_STOP_IDENTS) or t.kind in ('num', 'lifetime') or (t.kind == 'punct' and t.text in ('.', ':')):
+                r -= 1
+                continue
+            break
+        recv_start = toks[s[r + 1]].start
+        recv = body[recv_start:toks[s[pos]].start].strip()
+        new = '{ let mut vx_acc = %s; for %s in %s { let %s = vx_acc; vx_acc = %s; } vx_acc }' % (init_text, pat, recv, acc_name, cbody)
+        return body[:recv_start] + new + body[end:]
     # closure: | P | B
     q = pos + 4
     pat_start = toks[s[q]].start
